@@ -107,7 +107,7 @@ def conds(tier):
         cs.append(Cond("twotrees-m%d-n%d" % (m, n), "harness.c08:counts", ps,
                        fixed={"m": m, "n": n, "mk": True, "two": True, "r": True, "sp": False},
                        pre=[_wfe(m, n, "a"), _wfe(m, n, "b")] + (["nf and h == 1 and v >= 1 and not opt"] if q else ["nf or h == 1"]),
-                       shard=["v", "alp1"] + ([] if q else ["opt", "blp1"]),
+                       shard=["v", "alp1", "blp1"] + ([] if q else ["opt"]),
                        skip=(lambda sf: sf["v"] == 0) if q else None, timeout=900 if q else 3000, functions=FUNCS,
                        note="two symbolic trees over the same labels; counts unbounded symbolic"))
     return cs
